@@ -142,10 +142,9 @@ def shadow(rng, spec):
     n = 0
     for fn, keys in SHADOW.items():
         idxs = [i for i, (f, kw) in enumerate(spec["ops"]) if f == fn]
-        # an out-of-service circulation pump next to an in-service one makes pipeflow raise IndexError today
-        # (CirculationPump.create_pit_branch_entries: mask of the in-service rows applied to the pit of all rows;
-        # reported to the coordinator, outside C01 / C03) - generated rarely so that the other shadows stay effective
-        if not idxs or rng.random() < (0.9 if "circ_pump" in fn else 0.5):
+        # (an out-of-service circulation pump next to an in-service one made pipeflow raise IndexError until /repo
+        # commit ef981da; such twins are generated like all others now)
+        if not idxs or rng.random() < 0.5:
             continue
         i = rng.choice(idxs)
         tw = copy.deepcopy(spec["ops"][i][1])
